@@ -17,7 +17,7 @@ func init() {
 	register(&Prop{
 		ID:    "C13",
 		Level: "exploration",
-		Rule: "case = (2..6 caller tasks each submitting its own seeded list of plain, streaming and literal-bearing commands on one shared client and consuming its own results, an observer task calling State/Caps/Mailbox, optionally a task calling Close or a connection cut/reset at a seeded byte offset, server capability set, network mode), under a seeded schedule with a scheduling point at every mutex operation, channel operation, select, goroutine start and conn call of the woven client. " +
+		Rule: "case = (2..6 caller tasks each submitting its own seeded list of plain, streaming and literal-bearing commands on one shared client and consuming its own results, an observer task calling State/Caps/Mailbox, optionally a task calling Close or a connection cut/reset at a seeded byte offset, server capability set, network mode; the first caller logs in with LOGIN or AUTHENTICATE PLAIN/LOGIN), under a seeded schedule with a scheduling point at every mutex operation, channel operation, select, goroutine start and conn call of the woven client. " +
 			"A second pass re-runs a share of the cases in the race-visible build. Non-trivial: at least two callers issued a command. Distinct: distinct event-log hashes.",
 		Components:   "real: imapclient.Client, internal/imapwire (woven), imapserver + imapmemserver as the peer (woven); stub: network, clock, scheduler",
 		Assumptions:  []string{"each caller consumes or closes its own streaming commands in issue order (documented contract)", "race reports count only if both accesses reach go-imap code before any simulator/harness frame (frame rule, DESIGN.md 2.3)"},
@@ -193,6 +193,11 @@ func runC13(r *R) {
 	if cfg.SwitchPermille < 100 {
 		cfg.SwitchPermille = 100 + 100*t.Choose(5) // concurrency is the point here
 	}
+	// the first caller logs in with LOGIN or (1 in 3) with AUTHENTICATE PLAIN / LOGIN, i.e. through continuation requests
+	firstOp := cop{Kind: opLogin}
+	if t.Choose(3) == 2 {
+		firstOp = cop{Kind: opAuthPlain, A: t.Choose(2)}
+	}
 	for i, l := range lists {
 		r.Tracef("caller%d ops=%v", i, l)
 	}
@@ -225,7 +230,7 @@ func runC13(r *R) {
 		c := imapclient.New(cc, nil)
 		first := &clientRunner{r: r, c: c, tag: "caller0", uidLane: 1}
 		runners = append(runners, first)
-		first.issue(cop{Kind: opLogin})
+		first.issue(firstOp)
 		first.issue(cop{Kind: opSelect})
 		var dones []chan struct{}
 		allDone := make(chan struct{})
